@@ -25,7 +25,7 @@ REQUIRED_COUNTERS = ('shadow_comparisons', 'commits', 'aborts', 'failed_commits_
                      'close_while_joined_refused', 'relinked_disowned_objects')
 
 OPS = ['modify'] * 5 + ['link'] * 6 + ['unlink'] * 2 + ['add'] * 2 + ['commit'] * 4 + ['abort'] * 2 + ['conflict', 'foreign', 'foreign', 'io-fault',
-                                                                                                  'close-joined', 'reopen', 'long-meta', 'savepoint', 'savepoint', 'rollback', 'refused-write', 'serialize-failure']
+                                                                                                  'close-joined', 'reopen', 'long-meta', 'savepoint', 'savepoint', 'rollback', 'refused-write', 'serialize-failure', 'cache-pressure']
 
 
 def shards(tier, seed):
@@ -96,7 +96,8 @@ def run_case(sh, s, d, case):
     ZODB.DemoStorage.random = random.Random(s)
     kind = rnd.choice(['file', 'file', 'mapping', 'demo'])
     st = mkstorage(kind, d, FSM)
-    db = ZODB.DB(st)
+    # a small object cache in a third of the runs: savepoints then ghostify what they have just stored
+    db = ZODB.DB(st, cache_size=(2 if s % 3 == 0 else 400))
     trace = []
     sw = Shadow(db, rnd, st, trace)
     failed = False
@@ -140,6 +141,8 @@ def run_case(sh, s, d, case):
                 sw.op_close_while_joined()
             elif k == 'reopen':
                 sw.op_reopen()
+            elif k == 'cache-pressure':
+                sw.op_cache_pressure()
             elif k == 'refused-write':
                 sw.op_refused_write()
             elif k == 'serialize-failure':
